@@ -50,6 +50,9 @@ type Harness struct {
 	Assumptions []string
 	Rule        string
 	Budget      func(tier string) time.Duration
+	// Pre runs once in the parent before the scenarios (e.g. trials that need a fresh process each); it may record
+	// violations and returns (evaluations, extra evidence keys).
+	Pre func(tier string, rep *lib.Report) (int, map[string]any)
 }
 
 type task struct {
@@ -132,6 +135,13 @@ func Main(h Harness) {
 	exhaustive := true
 	racesChecked := 0
 
+	preEvals := 0
+	var preExtra map[string]any
+	if h.Pre != nil {
+		preEvals, preExtra = h.Pre(args.Tier, rep)
+	}
+	pool := lib.NewPool(lib.PoolOpts{Workers: args.Workers, Env: []string{fmt.Sprintf("VERIF_DEADLINE=%d", deadline.UnixNano())}})
+	defer pool.Close()
 	// level-major order: every scenario at bound 0, then every scenario at bound 1, ... so that a time
 	// budget cuts the deepest bounds of all scenarios instead of starving the later scenarios
 	stats = make([]scStat, len(scenarios))
@@ -195,7 +205,7 @@ func Main(h Harness) {
 			}
 			capped := false
 			if len(tasks) > 0 {
-				lib.RunPool(tasks, lib.PoolOpts{Workers: args.Workers, Env: []string{fmt.Sprintf("VERIF_DEADLINE=%d", deadline.UnixNano())}}, func(o lib.TaskOutcome) {
+				pool.Run(tasks, func(o lib.TaskOutcome) {
 					if o.Crashed || o.TimedOut {
 						t := tasks[o.Index].(task)
 						rep.InfraError(fmt.Sprintf("%s: worker died exploring subtree %s: %s\n%s", sc.Name, choiceString(t.Prefix), lib.FatalLine(o.Stderr), o.Stderr))
@@ -274,6 +284,11 @@ func Main(h Harness) {
 	if rule == "" {
 		rule = "stateless depth-first search over the choice sequences (thread schedule at every visible synchronisation / channel / transport operation, plus environment answers) of the real code under a cooperative scheduler; bounds iterated per scenario; a case is distinct by its choice sequence"
 	}
+	extraKeys := map[string]any{}
+	for k, v := range preExtra {
+		extraKeys[k] = v
+	}
+	totalExec += preEvals
 	rep.Finish(lib.Coverage{
 		Evaluations:        totalExec,
 		DistinctNontrivial: len(allOutcomes),
@@ -283,7 +298,7 @@ func Main(h Harness) {
 		Transitions:        totalTrans,
 		TracesValidated:    totalExec,
 		Exhaustive:         exhaustive,
-		Extra: map[string]any{
+		Extra: mergeExtra(extraKeys, map[string]any{
 			"scenarios":                 stats,
 			"distinct_outcomes":         outList,
 			"distinct_outcome_count":    len(allOutcomes),
@@ -291,8 +306,15 @@ func Main(h Harness) {
 			"states_rule":               "distinct scheduling-state signatures (per-thread pending operation, object and progress) summed over scenarios; reporting only, never used to prune",
 			"traces_validated_how":      "every explored trace is an execution of the implementation compiled from /repo's working tree (no separate model); the first 20 executions of every search and every violating schedule are re-executed and must reproduce the same trace hash",
 			"executions_with_race_scan": racesChecked,
-		},
+		}),
 	}, h.Assumptions)
+}
+
+func mergeExtra(a, b map[string]any) map[string]any {
+	for k, v := range a {
+		b[k] = v
+	}
+	return b
 }
 
 func hasUnknown(rep *lib.Report) bool {
